@@ -100,10 +100,11 @@ def main():
         else:
             sh('git -C /repo worktree remove --force %s' % wt)
             shutil.rmtree(wt, ignore_errors=True)
-        # build output of the alternative checkout
+        # build output of the alternative checkout (kept while a worktree is being reused: incremental rebuilds)
         import hashlib
         alt = '/alt_' + hashlib.md5(wt.encode()).hexdigest()[:10]
-        shutil.rmtree('/verif/.target' + alt, ignore_errors=True)
+        if not reuse:
+            shutil.rmtree('/verif/.target' + alt, ignore_errors=True)
         shutil.rmtree('/verif/.work' + alt, ignore_errors=True)
 
 
